@@ -138,15 +138,16 @@ func regroup(stream []byte, ends []int) [][]byte {
 
 // wire is a prepared carrier byte stream whose partition into reads is enumerated.
 type wire struct {
-	carrier string
-	writes  [][]byte
-	raw     []byte // concatenated raw stream
-	pre     []byte // bytes delivered in front of data (HTTP POST request); cut position 0 = boundary pre|data
-	data    []byte // carrier bytes (base64 text, websocket frames, or raw)
-	blocks  []int  // ends of the carrier blocks in data (base64 block per write, websocket frame per write)
-	lo      int    // smallest allowed cut position (0 when pre is present, else 1)
-	full    []byte // pre + data (built on first use)
-	elemEnds []int // raw offsets of the element ends (set by the round-trip jobs)
+	carrier  string
+	writes   [][]byte
+	raw      []byte  // concatenated raw stream
+	pre      []byte  // bytes delivered in front of data (HTTP POST request); cut position 0 = boundary pre|data
+	data     []byte  // carrier bytes (base64 text, websocket frames, or raw)
+	blocks   []int   // ends of the carrier blocks in data (base64 block per write, websocket frame per write)
+	lo       int     // smallest allowed cut position (0 when pre is present, else 1)
+	full     []byte  // pre + data (built on first use)
+	elemEnds []int   // raw offsets of the element ends (set by the round-trip jobs)
+	pair     *wsPair // upgraded WebSocket connection kept for the next delivery (fast mode)
 }
 
 func dialTo(c net.Conn) gortsplib.VerifC04Dial {
@@ -322,6 +323,8 @@ type session struct {
 	cr     *chunkReader
 	tunnel net.Conn // serverHTTPTunnel, for the base64 buffer inspection
 	brs    []*bufio.Reader
+	pair   *wsPair // WebSocket connection that may be reused after a complete read
+	w      *wire
 }
 
 var brPool = sync.Pool{New: func() any { return bufio.NewReader(nil) }}
@@ -392,14 +395,24 @@ func (w *wire) open(cuts []int, one bool, fast bool) (*session, error) {
 		s.tunnel = tun
 		s.conn = conn.NewConn(s.reader(tun), tun)
 	case carWSc2s, carWSs2c:
-		p, err := newWSPair()
-		if err != nil {
-			return nil, err
+		// fast (WebSocket): keep using the upgraded connection of the previous delivery of this wire; the
+		// end-of-stream probe is then replaced by "every carrier byte consumed, nothing buffered" (readBack).
+		p := w.pair
+		w.pair = nil
+		if p == nil || !fast {
+			var err error
+			if p, err = newWSPair(); err != nil {
+				return nil, err
+			}
 		}
 		c2s := w.carrier == carWSc2s
 		data, _, err := p.produce(c2s, w.writes)
 		if err != nil {
 			return nil, err
+		}
+		if fast {
+			s.pair = p // handed back to the wire by readBack when the delivery was read completely
+			s.w = w
 		}
 		if len(data) != len(w.data) {
 			return nil, fmt.Errorf("websocket stream length changed: %d vs %d", len(data), len(w.data))
